@@ -265,11 +265,44 @@ func runC33(args []string) {
 	out.Flush()
 }
 
-// c33SiteMatrix: every method on the website endpoint and on a custom domain.
+// c33AdversarialHosts builds, from the CONFIGURED endpoints, hosts that are NOT the API (endpoint as
+// infix, as prefix, as suffix without the dot, other letter case, trailing dot, IP literals, each
+// with and without port) and a few that are (controls). Nothing here depends on a particular bug.
+func c33AdversarialHosts(api, web, bucket string) []string {
+	title := func(s string) string { return strings.ToUpper(s[:1]) + s[1:] }
+	base := []string{
+		// endpoint in the middle
+		bucket + "." + api + ".cdn.example.net", "assets." + api + ".cdn.example.net", bucket + "." + web + ".evil.org", "x." + api + "." + web + ".org",
+		// endpoint at the start
+		api + ".evil.org", web + ".evil.org", api + "x", api + "-mirror.example.org",
+		// endpoint at the end, but not after a dot
+		"evil" + api, bucket + api, "x" + web, bucket + "-" + api,
+		// other letter case
+		strings.ToUpper(api), bucket + "." + strings.ToUpper(api), bucket + "." + title(web), title(api),
+		// trailing dot (FQDN spelling)
+		api + ".", bucket + "." + api + ".", bucket + "." + web + ".",
+		// the other endpoint's subdomains and bare names
+		web, "." + web,
+		// IP literals
+		"127.0.0.1", "[::1]", "[2001:db8::1]",
+		// controls: these ARE the API
+		api, bucket + "." + api, "a.b." + api, "." + api,
+	}
+	var hosts []string
+	for _, h := range base {
+		hosts = append(hosts, h, h+":9000")
+	}
+	return hosts
+}
+
+// c33SiteMatrix: every method on the website endpoint, on a custom domain and on the adversarial
+// hosts, with targets that would change state if they ever reached the S3 API handlers.
 func c33SiteMatrix(webBucket, customBucket string) []c33SiteOp {
 	var ops []c33SiteOp
 	hosts := []string{webBucket + "." + c33WebEp, webBucket + "." + c33WebEp + ":8080", customBucket, customBucket + ":80", "unknown.example.org", "127.0.0.1:9000", "[::1]:9000"}
-	targets := []string{"/", "/index.html", "/docs", "/docs/", "/put-target", "/a%2Fb", "/missing", "/?uploads", "/put-target?tagging", "/?delete", "/?website", "/?cors"}
+	hosts = append(hosts, c33AdversarialHosts(c33ApiEp, c33WebEp, webBucket)...)
+	targets := []string{"/", "/index.html", "/docs", "/docs/", "/put-target", "/a%2Fb", "/missing", "/?uploads", "/put-target?tagging", "/?delete", "/?website", "/?cors",
+		"/" + webBucket + "/injected.txt", "/" + webBucket + "/index.html", "/" + webBucket, "/" + webBucket + "?website", "/" + webBucket + "/index.html?tagging", "/created-by-site-request"}
 	for _, h := range hosts {
 		for _, m := range []string{"GET", "HEAD", "PUT", "POST", "DELETE", "OPTIONS", "PATCH"} {
 			for _, t := range targets {
